@@ -91,7 +91,7 @@ class Outcome:
                 self.known_hits[sig][1] += 1
                 return False
         replay = None
-        if len(self.violations) < 50:
+        if len(self.violations) < 50 or not any(v['signature'] == sig for v in self.violations):
             d = os.path.join(WORK, 'replays')
             os.makedirs(d, exist_ok=True)
             replay = os.path.join(d, '%s_%d.json' % (self.prop, len(self.violations)))
